@@ -6,8 +6,9 @@ directly on the observation.
 import Driver.MergeDecode
 import NriModel.Ledger
 import NriModel.Overlay
+import NriModel.UpdateWalk
 
-open Lean Drv Nri Nri.NApi Nri.Result Nri.Overlay
+open Lean Drv Nri Nri.NApi Nri.Result Nri.Overlay Nri.UpdateWalk
 
 namespace Drv.Merge
 
@@ -191,46 +192,11 @@ def specC02 (d : Judged) : Bool × String × String :=
      s!"C02:false-conflict:{U d.obs.err.subject |>.takeWhile (· != ' ')}")
   else (true, "", "")
 
-/-! A direct, state-free account of what the update lists of a chain must yield (C05 "exactly
-    the resource fields plugins set … an ignore-failure update that conflicts is dropped in
-    its entirety"; C04 "the resources presented in an update request"): walk the updates in
-    chain order keeping (i) which (target, field) pairs are taken and (ii) the resources of
-    every target; an update whose fields are all free is overlaid on its target and takes
-    them; one that hits a taken field contributes NO value (it must be marked ignore-failure
-    in a successful request) but the fields it named before the taken one stay taken — that
-    is what the real ledger does, and it decides whether a later ignore-failure update is
-    dropped. -/
-structure Sim where
-  taken : List (Cid × Item) := []
-  res : List (Cid × Resources) := []
-
-def Sim.get (s : Sim) (base : Cid → Resources) (c : Cid) : Resources :=
-  match s.res.find? (fun x => x.1 = c) with
-  | some x => x.2
-  | none => base c
-
-def Sim.put (s : Sim) (c : Cid) (r : Resources) : Sim :=
-  if s.res.any (fun x => x.1 = c) then { s with res := s.res.map fun x => if x.1 = c then (c, r) else x }
-  else { s with res := s.res ++ [(c, r)] }
-
-def simUpdate (base : Cid → Resources) (s : Sim) (u : Update) : Sim :=
-  let s := if s.res.any (fun x => x.1 = u.containerId) then s else s.put u.containerId (base u.containerId)
-  match u.resources with
-  | none => s
-  | some r =>
-    let items := Ledger.setsUpd u
-    let free := items.takeWhile fun it => !(s.taken.contains (u.containerId, it))
-    if free.length == items.length && items.eraseDups.length == items.length then
-      { (s.put u.containerId (overlayRes (s.get base u.containerId) r r.pids)) with
-          taken := s.taken ++ items.map fun it => (u.containerId, it) }
-    else { s with taken := s.taken ++ free.eraseDups.map fun it => (u.containerId, it) }
-
 def simBase (d : Judged) : Cid → Resources := fun c =>
   let own : Bool := match d.kind with | .update o => decide (o = c) | _ => false
   if own then normRes (d.inp.resources.getD {}) else normRes {}
 
-def simPrefix (d : Judged) (n : Nat) : Sim :=
-  ((d.chain.take n).flatMap fun (_, r) => r.updates).foldl (simUpdate (simBase d)) {}
+def simPrefix (d : Judged) (n : Nat) : Sim := walk (simBase d) (d.chain.take n)
 
 /-- every returned entry carries exactly what the walk above yields for its target -/
 def exactFields (d : Judged) : Option String :=
